@@ -113,20 +113,20 @@ func (t *vfC09Tran) Read(_ string, _ int, from, to string) {
 func (t *vfC09Tran) Num() int { return t.num }
 
 type vfC09World struct {
-	rep     *vk.Report
-	r       *rand.Rand
-	nf      int
-	univ    []string          // key universe, sorted
-	live    map[string]uint64 // model: live keys -> offset
-	touched map[string]bool   // keys that have an entry in some layer (or the btree)
-	ov      *Overlay
-	st      *stor.Stor
-	nextOff uint64
+	rep       *vk.Report
+	r         *rand.Rand
+	nf        int
+	univ      []string          // key universe, sorted
+	live      map[string]uint64 // model: live keys -> offset
+	touched   map[string]bool   // keys that have an entry in some layer (or the btree)
+	ov        *Overlay
+	st        *stor.Stor
+	nextOff   uint64
 	btreeOnly bool
-	nbt     int      // keys bulk-loaded into the btree
-	sorted  []string // cache of sorted live keys
-	dirty   bool
-	h       interface{ Write([]byte) (int, error) }
+	nbt       int      // keys bulk-loaded into the btree
+	sorted    []string // cache of sorted live keys
+	dirty     bool
+	h         interface{ Write([]byte) (int, error) }
 }
 
 var vfC09Fields = []string{"", "", "a", "a\x00", "b", "c", "\x03\x81", "d"}
@@ -508,7 +508,7 @@ func vfC09Program(w *vfC09World, kind string, pi int, ident string) {
 			if replacedSince {
 				rep.Count("steps_after_overlay_replaced", 1)
 			}
-			if oi != nil && oi.overlay == tran.ov && oi.lastDir == dir0(dir) && oi.fastIdx >= 0 && oi.state == within &&
+			if oi != nil && oi.overlay == tran.ov && oi.lastDir == vfC09Dir(dir) && oi.fastIdx >= 0 && oi.state == within &&
 				!oi.iters[len(oi.iters)-1].Modified() {
 				rep.Count("fast_path_steps", 1)
 			}
@@ -731,7 +731,7 @@ func vfC09Watchdog(rep *vk.Report) {
 	}()
 }
 
-func dir0(d int) dir {
+func vfC09Dir(d int) dir {
 	if d > 0 {
 		return next
 	}
